@@ -73,6 +73,11 @@ type assignStmt struct {
 	i   expr
 	v   value
 }
+type reassignStmt struct {
+	tag  string
+	arr  string
+	vals []value
+}
 type ifStmt struct {
 	arr  string
 	op   string // ">" "==" "<"
@@ -185,6 +190,23 @@ func (s assignStmt) run(e *env) bool {
 		return false
 	}
 	e.arrs[s.arr][p] = s.v.out
+	return true
+}
+
+func (s reassignStmt) emit(b *strings.Builder, ind string) {
+	var vs []string
+	for _, v := range s.vals {
+		vs = append(vs, v.src)
+	}
+	fmt.Fprintf(b, "%sio::Println(\"%s\");\n%s%s = [%s];\n", ind, s.tag, ind, s.arr, strings.Join(vs, ", "))
+}
+func (s reassignStmt) run(e *env) bool {
+	e.println(s.tag)
+	var vs []string
+	for _, v := range s.vals {
+		vs = append(vs, v.out)
+	}
+	e.arrs[s.arr] = vs
 	return true
 }
 
@@ -519,10 +541,20 @@ func Generate(r *core.Rng, maxOps int, wantOOB bool) *Program {
 			run(assignStmt{g.tag(), a, g.index(i, a, ""), g.val(g.types[a])})
 			run(printIdx{g.tag(), a, g.index(i, a, "")})
 			g.shape = append(g.shape, "write")
-		case x < 80:
+		case x < 77:
 			run(printLen{g.tag(), core.Pick(r, all)})
 			g.shape = append(g.shape, "len")
-		case x < 90: // branch on the current length
+		case x < 82: // re-assign the variable from a fresh literal (a new, usually shorter, length)
+			a := core.Pick(r, arrs)
+			n := r.Range(1, 4)
+			st := reassignStmt{tag: g.tag(), arr: a}
+			for k := 0; k < n; k++ {
+				st.vals = append(st.vals, g.val(g.types[a]))
+			}
+			g.litLen[a] = n
+			run(st)
+			g.shape = append(g.shape, "reassign")
+		case x < 91: // branch on the current length
 			a := core.Pick(r, arrs)
 			n := int64(g.e.length(a))
 			op := core.Pick(r, []string{">", "==", "<"})
